@@ -484,9 +484,17 @@ def running_state_writers():
         out.append((f"scan/running_state_writers/{rel}:{fn}", False, f"writes RUNNING: {a}"))
     # pop_next_job writes the state it got from _get_next_step (a variable): that is the only writer
     _, node = extract.find_def("stepup/core/scheduler.py", "Scheduler.pop_next_job")
-    ok = any(isinstance(n, ast.Call) and isinstance(n.func, ast.Attribute) and n.func.attr == "set_state"
-             and ast.unparse(n.args[0]) == "state" for n in ast.walk(node))
-    out.append(("scan/running_state_writers/pop_next_job", ok, "step.set_state(state) with the selected state"))
+    # (which state that is -- the one _get_next_step selected -- is the postcondition
+    # changes_the_selected_step_to_the_selected_state of pop_next_job; here: the argument is a local variable bound by
+    # unpacking the selection, whatever the locals are called)
+    selected = {t.id for n in ast.walk(node) if isinstance(n, ast.Assign) and isinstance(n.value, ast.Call)
+                and ast.unparse(n.value.func).endswith("._get_next_step") for t in n.targets if isinstance(t, ast.Name)}
+    unpacked = {e.id for n in ast.walk(node) if isinstance(n, ast.Assign) and isinstance(n.value, ast.Name)
+                and n.value.id in selected for t in n.targets if isinstance(t, (ast.Tuple, ast.List))
+                for e in t.elts if isinstance(e, ast.Name)}
+    ok = any(isinstance(n, ast.Call) and isinstance(n.func, ast.Attribute) and n.func.attr == "set_state" and n.args
+             and isinstance(n.args[0], ast.Name) and n.args[0].id in unpacked for n in ast.walk(node))
+    out.append(("scan/running_state_writers/pop_next_job", ok, "step.set_state(<state unpacked from the selection>)"))
     return out
 
 
